@@ -11,7 +11,6 @@ COQ_MODEL = ["C01/Check.v", "C01/FactsCfg.v", "Gen/C01Facts.v"]
 COQ_PROOF_DEPS = ["C01/Proofs.v", "C01/SiteClasses.v"]
 COQ_OBLIG = ["C01/Property.v", "Gen/C01Oblig.v"]
 CASES_HEADER = ("Require Import Nib.C01.Sites Nib.C01.Model Nib.C01.Spec Nib.C01.Check Nib.C01.FactsCfg Nib.Gen.C01Facts.\n"
-                "Open Scope Z_scope.\n"
                 "Definition current_cfg : cfg := Eval vm_compute in cfg_of_facts map_sites toslice_uses.")
 CASE_TYPE = "case"
 MISMATCH_FN = "mismatch current_cfg"
@@ -38,7 +37,7 @@ HARNESS_TIMEOUT = {"quick": 420, "thorough": 7200}
 
 
 def _z(n):
-    return "(%d)" % int(n)
+    return "(%d)%%Z" % int(n)
 
 
 def _zl(xs):
@@ -68,7 +67,7 @@ def to_coq_case(rec):
         for op, seen in zip(inp["ops"], obs):
             ks = op.get("ks") or []
             o = {"build": "OBuild " + _zl(ks), "union": "OUnion " + _zl(ks),
-                 "set": "OSet " + _z(ks[0]) if ks else "OSet 0", "del": "ODelete " + _z(ks[0]) if ks else "ODelete 0"}[op["op"]]
+                 "set": "OSet " + _z(ks[0] if ks else 0), "del": "ODelete " + _z(ks[0] if ks else 0)}[op["op"]]
             items.append("(%s, %s)" % (o, _zl(seen)))
         return "COmap [" + "; ".join(items) + "]"
     if t == "skeys":
